@@ -2,6 +2,7 @@ package model
 
 import (
 	"fmt"
+	"strings"
 
 	"verifsim/sdl"
 )
@@ -223,6 +224,9 @@ func (w *World) CheckContinuation(out *Outcome, o *Obs) []Violation {
 		for _, pt := range t.Points {
 			seen := map[string]int{}
 			for _, x := range c.Points[pt.Field] {
+				if strings.HasPrefix(x, "?") {
+					continue // the container's own components (several may share a type)
+				}
 				seen[x]++
 			}
 			for _, x := range sdl.SortedKeys(seen) {
